@@ -416,4 +416,97 @@ def runErrorText : Thrown → String
   | .errObj n m _ _ => format n m              -- &Error{vl}; Error() = format()
   | .obj t => t
 
+/-! ## error objects made with a message: constructors (with / without `new`) and `Otto.Make*Error` -/
+
+inductive Route
+  | new_      -- `new C(msg)`            builtinNewXxxError → rt.newXxxError(msg)            (builtin_error.go)
+  | call      -- `C(msg)`                builtinXxxError: a native activation `C` is entered first
+  | make      -- `Otto.MakeCustomError(name, msg)` / `MakeTypeError(msg)` … from a Go host function (otto.go:394-414)
+deriving Repr, DecidableEq
+
+/-- the six NativeError names that `rt.newError` (global.go:158-172) routes to their own constructor functions -/
+def isNativeSub (name : String) : Bool :=
+  name = "EvalError" || name = "TypeError" || name = "RangeError" || name = "ReferenceError" ||
+  name = "SyntaxError" || name = "URIError"
+
+/-- what is observable of such an object -/
+structure ErrObs where
+  runText : String      -- text of the error `Run` returns when the object is thrown and not caught
+  msgIsString : Bool    -- `typeof e.message == "string"` (else "undefined")
+  msg : String          -- `e.message` when it is a string
+  ownMessage : Bool     -- `e.hasOwnProperty("message")`
+  ownName : Bool        -- `e.hasOwnProperty("name")`
+  str : String          -- `String(e)`
+  stackHead : String    -- first line of `e.stack`
+  nativeTop : Bool      -- the first frame of `e.stack` is the constructor's own native activation
+deriving Repr, DecidableEq
+
+/-- type_error.go:3-12 `newErrorObject`: `newError(rt, name, pop, "%s", message.string())` – the message is an
+    OPERAND of the format `%s`, so it arrives unchanged; `err.messageValue()` (error.go:128) is `Value{}` for the
+    empty string.  global.go:174-178: every object not made by one of the six NativeError functions gets an own
+    `name`.  builtin_error.go: only `builtinError` passes `stackFramesToPop = 1`. -/
+def errObs (r : Route) (ctor : String) (arg : Option String) : ErrObs :=
+  let m := arg.getD ""
+  { runText := format ctor m
+    msgIsString := match arg with | some a => a.length != 0 | none => true
+    msg := m
+    ownMessage := arg.isSome
+    ownName := !isNativeSub ctor
+    str := format ctor m
+    stackHead := format ctor m
+    nativeTop := r == .call && isNativeSub ctor }
+
+/-! ## `Error.prototype.toString` on an arbitrary this value (builtin_error.go:15-42) -/
+
+inductive ThisKind
+  | undef | null
+  | prim                                  -- a number, string or boolean
+  | object (name msg : Option String)     -- an object and its `name` / `message` properties (`none` = undefined)
+deriving Repr, DecidableEq
+
+/-- `none` = a TypeError is thrown.  `call.thisObject()` is `toObject(this)`: it throws for null and wraps a
+    primitive in an object (which has neither `name` nor `message`).  An undefined this never arrives:
+    `Function.prototype.call/apply` hand the global object to the callee instead (also to built-ins). -/
+def errorProtoToString : ThisKind → Option String
+  | .undef => some (format "Error" "")
+  | .null => none
+  | .prim => some (format "Error" "")
+  | .object n m => some (format (n.getD "Error") (m.getD ""))
+
+/-! ## engine errors whose text embeds user text -/
+
+/-- `fmt.Sprintf(format)` with NO operands, for formats in which every `%` is followed by `%`, by a plain verb
+    character (no flag, width, precision or index) or by the end of the string: fmt/print.go `doPrintf` writes
+    `%` for `%%`, `%!v(MISSING)` for a verb `v` without operand and `%!(NOVERB)` for a trailing `%`. -/
+def sprintf0 : List Char → List Char
+  | [] => []
+  | c :: r =>
+    if c = '%' then
+      match r with
+      | [] => "%!(NOVERB)".toList
+      | v :: r' => if v = '%' then '%' :: sprintf0 r' else "%!".toList ++ [v] ++ "(MISSING)".toList ++ sprintf0 r'
+    else c :: sprintf0 r
+
+/-- is `f` inside the modelled subset of `sprintf0`? -/
+def sprintf0OK : List Char → Bool
+  | [] => true
+  | '%' :: [] => true
+  | '%' :: v :: r => !(v = '+' || v = '-' || v = '#' || v = ' ' || v = '0' || v.isDigit || v = '.' || v = '[' || v = '*') && sprintf0OK r
+  | _ :: r => sprintf0OK r
+
+inductive EngineMsg
+  | evalToken (tok : String)     -- `eval(tok)`, tok a punctuator that cannot start a statement: parseThrow (runtime.go:865)
+  | jsonChar (c : String)        -- `JSON.parse(c)`, c one character that cannot start a JSON text (builtin_json.go:31)
+  | unresolvable (name : String) -- an undeclared identifier is read  (type_reference.go: `'%s' is not defined`)
+  | notFunction (name : String)  -- `o[name]()` on a non-function     (cmpl_evaluate_expression.go:230 `%q is not a function`)
+deriving Repr, DecidableEq
+
+/-- (class name, message).  The first two pass the whole error text as the FORMAT of `newError` (no operands);
+    the last two pass the user text as an operand of a literal format. -/
+def engineMsg : EngineMsg → String × String
+  | .evalToken t => ("SyntaxError", String.ofList (sprintf0 ("(anonymous): Line 1:1 Unexpected token " ++ t).toList))
+  | .jsonChar c => ("SyntaxError", String.ofList (sprintf0 ("invalid character '" ++ c ++ "' looking for beginning of value").toList))
+  | .unresolvable n => ("ReferenceError", "'" ++ n ++ "' is not defined")
+  | .notFunction n => ("TypeError", "\"" ++ n ++ "\" is not a function")
+
 end OttoVerif.C19
